@@ -363,6 +363,54 @@ def decimals(ck, runner, tier):
     ck.sample({"decimal_case": lines[0], "model": model.get("0")})
 
 
+def rounding(ck, runner, tier):
+    """round(x, n) on decimals = rescale to (p, n): half away from zero, ties on both signs."""
+    rng = Rng(ck.seed * 211 + 9)
+    n = 250 if tier == "quick" else 5000
+    cases = []
+    for _ in range(n):
+        p = 2 + rng.below(37)
+        bits = 64 if p <= 18 else 128
+        s = 1 + rng.below(p)
+        k = rng.below(s)                  # new scale k < s
+        lim = 10 ** p - 1
+        d = s - k
+        c = rng.below(3)
+        if c == 0:      # exact tie
+            v = (rng.below(2 * 10 ** (p - d)) - 10 ** (p - d)) * 10 ** d + rng.pick([-1, 1]) * (10 ** d // 2)
+        elif c == 1:    # just off a tie
+            v = (rng.below(2 * 10 ** (p - d)) - 10 ** (p - d)) * 10 ** d + rng.pick([-1, 1]) * (10 ** d // 2 + rng.pick([-1, 1]))
+        else:
+            v = boundary(rng, -lim, lim)
+        v = max(-lim, min(lim, v))
+        cases.append((bits, p, s, k, v))
+    lines = [f"case {i} cast dec2dec Decimal{b}({p},{s}) Decimal{b}({p},{k}) {v}" for i, (b, p, s, k, v) in enumerate(cases)]
+    model = vlib.run_model(lines).get("out", {})
+    ck.count("round", len(cases))
+    for j in range(0, len(cases), 25):
+        chunk = list(enumerate(cases))[j:j + 25]
+        exprs = [f"round(CAST('{dec_text(v, s)}' AS DECIMAL({p},{s})), {k})" if (k > 0 or i % 2) else f"round(CAST('{dec_text(v, s)}' AS DECIMAL({p},{s})))"
+                 for i, (b, p, s, k, v) in chunk]
+        res = runner.run(["SELECT " + ", ".join(exprs)], timeout=60)
+        if isinstance(res, dict) or "rows" not in res[0]:
+            ck.violation("arith/round/decimal/failed", f"round() batch failed: {str(res)[:200]}", {"kind": "impl-vs-oracle", "sql": "SELECT " + ", ".join(exprs), "engine": res})
+            continue
+        for (i, (b, p, s, k, v)), cell, col, e in zip(chunk, res[0]["rows"][0], res[0]["cols"], exprs):
+            ck.nontrivial(e)
+            q, rem = divmod(abs(v), 10 ** (s - k))
+            if 2 * rem >= 10 ** (s - k):
+                q += 1
+            ex = q if v >= 0 else -q
+            g = parse_cell_num(cell)
+            m = model.get(str(i), "")
+            if g != ex or col[1] != f"Decimal{b}({p},{k})":
+                ck.violation("arith/round/decimal/wrong-value", f"SELECT {e} = unscaled {g} typed {col[1]}; exact half-away-from-zero result {ex} typed Decimal{b}({p},{k})",
+                             {"kind": "impl-vs-oracle", "sql": "SELECT " + e, "engine": cell, "exact": ex, "model": m})
+            elif m != f"ok {ex}":
+                ck.violation("arith/round/decimal/correspondence", f"{e}: model {m}, engine {g}", {"kind": "model-vs-impl", "correspondence": "Arith.rescale"}, found_input=False)
+    ck.sample({"round_case": lines[0] if lines else None})
+
+
 def sums(ck, runner, tier):
     rng = Rng(ck.seed * 977 + 3)
     n = 40 if tier == "quick" else 600
@@ -437,6 +485,7 @@ def main():
         eightbit(ck, runner)
         wide_ints(ck, runner, tier)
         decimals(ck, runner, tier)
+        rounding(ck, runner, tier)
         sums(ck, runner, tier)
     finally:
         runner.close()
